@@ -218,9 +218,12 @@ def systematic_resample(
 
     j = 0
     cumulative_sum = weights[0]
+    # Half-open cells [c_{j-1}, c_j): a zero-weight index is never selected, and the
+    # comb never runs past the last positive weight (sum(weights) may be slightly < 1).
+    last = np.flatnonzero(weights)[-1]
     indeces = np.empty(size, dtype=int)
     for i in range(size):
-        while positions[i] > cumulative_sum:
+        while positions[i] >= cumulative_sum and j < last:
             j += 1
             cumulative_sum += weights[j]
         indeces[i] = j
